@@ -124,6 +124,8 @@ def search(pid, tier, seed, escalate, hints):
             continue
         if threshold_fragile(sc, r1) or threshold_fragile(sc2, r2):
             continue
+        if blown_up(sc, r1) or blown_up(sc2, r2):
+            continue
         d = O.hist_equal(r1['rows'], r2['rows'], exact=False)
         if d:
             out.append(W('history', f'histories differ after re-expressing the inputs in other units: {d}'))
@@ -296,6 +298,17 @@ def derived_equal(o1, o2):
     return None
 
 
+def blown_up(sc, r):
+    """the run has left the regime in which the explicit scheme is stable (motor speed beyond twenty times the no-load speed): every
+    perturbation, the last-bit differences of re-expressed inputs included, is then amplified step after step and through the
+    cancelling StartLimitCurrent formula; two such runs are not comparable instant by instant at any fixed tolerance"""
+    try:
+        w0 = O.motor_si(sc)['w0']
+        return any(abs(x['spd'][0][0] * S.ffactor('AngularSpeed', x['spd'][0][1])) > 20 * w0 for x in (r.get('rows') or []))
+    except Exception:  # noqa
+        return False
+
+
 def reach_witness(sc, r1, r2):
     """scenarios under a ReachAngularPosition rule are not compared instant by instant (where braking starts is a threshold that moves
     with the load torque), but WHEN braking starts must not depend on the units: the first instant at which the duty cycle leaves 1
@@ -437,7 +450,7 @@ def replay(pid, path):
         if (r1['err'] or None) != (r2['err'] or None):
             found = f'original: {r1["err"] or "returns"}; re-expressed: {r2["err"] or "returns"}'
         elif r1['err'] is None:
-            found = reach_witness(sc, r1, r2) or (None if threshold_fragile(sc, r1) or threshold_fragile(sc2, r2) else O.hist_equal(r1['rows'], r2['rows'], exact=False))
+            found = reach_witness(sc, r1, r2) or (None if threshold_fragile(sc, r1) or threshold_fragile(sc2, r2) or blown_up(sc, r1) or blown_up(sc2, r2) else O.hist_equal(r1['rows'], r2['rows'], exact=False))
             if not found and 'objects' in r1 and 'objects' in r2:
                 found = derived_equal(r1['objects'], r2['objects'])
     elif isinstance(case.get('case'), dict) and 'motor' in case['case'] and 'reexpressed' in case:
